@@ -793,3 +793,90 @@ def reload_zero(ctx):
     uses = sum(1 for x in ast.walk(fn) if isinstance(x, ast.Attribute) and x.attr in numeric and isinstance(x.ctx, ast.Load))
     ctx.saw('%d reads of numeric columns in from_txid, %d of them taken over under a truthiness test of the value itself' % (uses, n))
     ctx.floor(uses, 10, 'reads of numeric columns')
+
+
+def _output_renumberers(methods):
+    direct = set()
+    for name, f in methods.items():
+        for loop in ast.walk(f):
+            if isinstance(loop, ast.For) and 'self.outputs' in norm(loop.iter):
+                if any(isinstance(x, ast.Assign) and any(isinstance(t, ast.Attribute) and t.attr == 'output_n' for t in x.targets) for x in ast.walk(loop)):
+                    direct.add(name)
+    closure = set(direct)
+    changed = True
+    while changed:
+        changed = False
+        for name, f in methods.items():
+            if name not in closure and any(isinstance(c, ast.Call) and isinstance(c.func, ast.Attribute) and norm(c.func.value) == 'self' and c.func.attr in closure for c in ast.walk(f)):
+                closure.add(name)
+                changed = True
+    return direct, closure
+
+
+@PROP.obligation('C08.outputs-numbered', canaries=[
+    mut.drop_stmt(W, 'Wallet.transaction_create', 'o.output_n = len(transaction.outputs)', 'Output objects supplied by the caller keep output_n 0'),
+    mut.drop_stmt('transactions', 'Transaction.shuffle_outputs', 'o.output_n = idx', 'shuffled outputs keep their old numbers'),
+])
+def outputs_numbered(ctx):
+    """The wallet stores the outputs of a transaction it sent by `output_n` and lists them as unspent under (txid, output_n): the number an
+    Output object carries must be its position. Every method of Transaction and the output loop of Wallet.transaction_create that adds,
+    removes or reorders outputs numbers them on every path afterwards (a loop that assigns output_n, or a call of a method that does),
+    or appends ONE Output whose number is set to the next position (add_output / `o.output_n = len(...)`)."""
+    methods = {k: ctx.repo.func('transactions:Transaction.' + k) for k in ctx.repo.methods_of('transactions:Transaction')}
+    direct, renum = _output_renumberers(methods)
+    ctx.saw('methods that renumber the outputs: %s (directly: %s)' % (sorted(renum), sorted(direct)))
+    if not direct:
+        ctx.undecided('no method of Transaction assigns output_n to the elements of self.outputs')
+    n = 0
+    sites = [('transactions:Transaction.' + k, f, 'self.outputs') for k, f in sorted(methods.items()) if k != '__init__']
+    sites.append((W + ':Wallet.transaction_create', ctx.repo.func(W + ':Wallet.transaction_create'), 'transaction.outputs'))
+    for q, f, lst in sites:
+        g = build_cfg(f)
+        owner = lst.split('.')[0]
+        muts = []
+        for node in g.nodes:
+            if node.ast is None:
+                continue
+            for y in ast.walk(node.ast):
+                if isinstance(y, ast.AugAssign) and norm(y.target) == lst:
+                    muts.append((node, y, '+='))
+                elif isinstance(y, ast.Call) and isinstance(y.func, ast.Attribute) and norm(y.func.value) == lst and y.func.attr in ('append', 'extend', 'insert', 'sort', 'reverse', 'pop', 'remove', 'clear'):
+                    muts.append((node, y, '.%s()' % y.func.attr))
+                elif isinstance(y, ast.Call) and norm(y.func) in ('random.shuffle', 'shuffle') and y.args and norm(y.args[0]) == lst:
+                    muts.append((node, y, 'shuffle'))
+                elif isinstance(y, ast.Delete) and any(lst in norm(t) for t in y.targets):
+                    muts.append((node, y, 'del'))
+        if not muts:
+            continue
+        renum_nodes = []
+        for node in g.nodes:
+            if node.ast is None:
+                continue
+            for y in ast.walk(node.ast):
+                if isinstance(y, ast.Assign) and any(isinstance(t, ast.Attribute) and t.attr == 'output_n' for t in y.targets):
+                    renum_nodes.append(node.id)
+                if isinstance(y, ast.Call) and isinstance(y.func, ast.Attribute) and norm(y.func.value) == owner and y.func.attr in renum and not q.endswith('.' + y.func.attr):
+                    renum_nodes.append(node.id)
+        exits = [x.id for x in g.nodes if x.kind == 'return'] + [g.exit_return]
+        for node, y, how in muts:
+            n += 1
+            if how == '.append()' and y.args:
+                arg = y.args[0]
+                if isinstance(arg, ast.Call) and norm(arg.func) == 'Output':
+                    idx = {k.arg: k.value for k in arg.keywords}.get('output_n')
+                    ok = idx is not None and any(isinstance(a2, ast.Assign) and norm(a2.targets[0]) == norm(idx) and norm(a2.value) == 'len(%s)' % lst for a2 in ast.walk(f))
+                    ctx.saw('%s: appends one Output with output_n=%s' % (q.split(':')[1], norm(idx) if idx is not None else None))
+                    ctx.require(ok, q, 'the appended Output is not numbered with the next position (output_n=%s)' % (norm(idx) if idx is not None else 'missing'), y)
+                    continue
+                if isinstance(arg, ast.Name):
+                    numbered = any(isinstance(a2, ast.Assign) and any(norm(t) == '%s.output_n' % arg.id for t in a2.targets) and norm(a2.value) == 'len(%s)' % lst for a2 in ast.walk(f))
+                    if numbered:
+                        ctx.saw('%s: appends `%s` after numbering it with len(%s)' % (q.split(':')[1], arg.id, lst))
+                        continue
+            p_ = g.path_avoiding(exits, via=renum_nodes, start=node.id)
+            if node.id in renum_nodes:
+                p_ = None
+            ctx.saw('%s: %s on %s, numbered afterwards on every path: %s' % (q.split(':')[1], how, lst, p_ is None))
+            ctx.require(p_ is None, q, '%s is changed by %s and the method can return without numbering the outputs (%s)' % (lst, how, g.describe_path(p_) if p_ else ''), y,
+                        'outputs carry a number that is not their position: the wallet stores two outputs under the same number (one is lost from the ledger) or lists an outpoint that does not exist on chain')
+    ctx.floor(n, 5, 'changes of output lists')
